@@ -313,7 +313,7 @@ def gen_call(ctx: WorkCtx, allow_uploads=True):
     ctx.allow_uploads = allow_uploads
     ctx.containers = []
     via = ch.weighted("w.via", [("execute", 6), ("get_item", 1), ("list_items", 1), ("ping", 1),
-                                ("create_item", 2), ("do_upload", 2 if allow_uploads else 0), ("search_now", 1)])
+                                ("create_item", 2), ("do_upload", 2 if allow_uploads else 0), ("search_now", 1), ("custom_query", 2)])
     before = ctx.n_upload_refs
     spec: Dict[str, Any] = {"via": via}
     if via == "execute":
@@ -341,6 +341,9 @@ def gen_call(ctx: WorkCtx, allow_uploads=True):
                         "color": ch.pick("w.colarg", [("unset",), ("none",), ("enum", "GREEN")])}
     elif via == "ping":
         spec["args"] = {}
+    elif via == "custom_query":
+        spec["args"] = {}
+        spec["rich"] = True
     elif via == "search_now":
         # GraphQL variables named like the generated method's own locals
         spec["args"] = {"query": ("str", ch.pick("w.sq", ["whale", "", "{ ping }"])),
@@ -694,8 +697,15 @@ def _run_workload(ch, variant, callers, uploads_spec, server_factory, own_transp
         try:
             with deterministic_gc(), seeded_world(ch, clock=loop.time):
                 client, N = build_client(variant, own_transport, server)
+                # a second client object built the same way, used by caller 1 only and closed when that caller is done: two
+                # client objects are two clients
+                client_b = build_client(variant, own_transport, server)[0] if (sched_knobs.get("second_client") and len(callers) >= 2) else None
+                if client_b is not None:
+                    info["second_client_object"] = True
+                _main_client = client
 
                 async def one(rec: CallRec):
+                    client = client_b if (client_b is not None and rec.caller == 1) else _main_client
                     q, op, variables, args, kw = prep(rec, N)     # harness code
                     variables, args = at_call_time(rec, q, op, variables, args)
                     rec.t_call = loop.next_seq()
@@ -706,8 +716,7 @@ def _run_workload(ch, variant, callers, uploads_spec, server_factory, own_transp
                             rec.response = resp
                             return ("ok", _outcome_value(client.get_data(resp)))
                         if rec.spec["via"] == "custom_query":
-                            cq = importlib.import_module(type(client).__module__.rsplit(".", 1)[0] + ".custom_queries")
-                            val = await client.query(cq.Query.ping(), operation_name="zz_nonce_%s" % rec.nonce)
+                            val = await client.query(*custom_fields_for(client, rec), operation_name="zz_nonce_%s" % rec.nonce)
                             return ("ok", _outcome_value(val))
                         val = await getattr(client, rec.spec["via"])(**args, **kw)
                         return ("ok", _outcome_value(val))
@@ -741,6 +750,11 @@ def _run_workload(ch, variant, callers, uploads_spec, server_factory, own_transp
                     await asyncio.sleep(sched_knobs["start"](ch, ci) if concurrent else 0.0)
                     for rec in by_caller.get(ci, []):
                         await one(rec)
+                    if ci == 1 and client_b is not None:
+                        try:
+                            await client_b.__aexit__(None, None, None)       # leaves its "async with" block
+                        except Exception:  # noqa
+                            pass
 
                 async def main():
                     if concurrent:
@@ -789,9 +803,21 @@ def _run_workload(ch, variant, callers, uploads_spec, server_factory, own_transp
         yp = sched.yield_point if sched else None
         with seeded_world(ch, clock=None):
             client, N = build_client(variant, own_transport, server, yp)
+            # (the builder modules are traced: import them now, not under the scheduler - a module body executing under the
+            # import lock must not be pre-empted)
+            for m_ in ("custom_typing_fields", "custom_fields", "custom_queries", "custom_mutations"):
+                try:
+                    importlib.import_module(type(client).__module__.rsplit(".", 1)[0] + "." + m_)
+                except ImportError:
+                    pass
+            client_b = build_client(variant, own_transport, server, yp)[0] if (sched_knobs.get("second_client") and len(callers) >= 2) else None
+            if client_b is not None:
+                info["second_client_object"] = True
+            _main_client = client
             prepared = {id(r): prep(r, N) for r in recs}    # harness code, outside the schedule
 
             def one(rec: CallRec):
+                client = client_b if (client_b is not None and rec.caller == 1) else _main_client
                 q, op, variables, args, kw = prepared[id(rec)]
                 variables, args = at_call_time(rec, q, op, variables, args)
                 rec.t_call = next_seq()
@@ -801,8 +827,7 @@ def _run_workload(ch, variant, callers, uploads_spec, server_factory, own_transp
                         rec.response = resp
                         rec.outcome = ("ok", _outcome_value(client.get_data(resp)))
                     elif rec.spec["via"] == "custom_query":
-                        cq = importlib.import_module(type(client).__module__.rsplit(".", 1)[0] + ".custom_queries")
-                        val = client.query(cq.Query.ping(), operation_name="zz_nonce_%s" % rec.nonce)
+                        val = client.query(*custom_fields_for(client, rec), operation_name="zz_nonce_%s" % rec.nonce)
                         rec.outcome = ("ok", _outcome_value(val))
                     else:
                         val = getattr(client, rec.spec["via"])(**args, **kw)
@@ -818,6 +843,11 @@ def _run_workload(ch, variant, callers, uploads_spec, server_factory, own_transp
                 def f():
                     for rec in by_caller.get(ci, []):
                         one(rec)
+                    if ci == 1 and client_b is not None:
+                        try:
+                            client_b.__exit__(None, None, None)       # leaves its "with" block
+                        except Exception:  # noqa
+                            pass
                 return f
 
             if concurrent:
@@ -839,11 +869,32 @@ def _run_workload(ch, variant, callers, uploads_spec, server_factory, own_transp
 _TRACED: Dict[str, List[str]] = {}
 
 
+def custom_numbers(rec) -> List[int]:
+    """The four distinct values of the `first` arguments of a rich custom operation, by position."""
+    k = int(rec.nonce[1:]) * 10 if rec.nonce[1:].isdigit() else 0
+    return [k + 1, k + 2, k + 3, k + 4]
+
+
+def custom_fields_for(client, rec):
+    """Builder expression of the custom_query via.  Plain: Query.ping().  Rich (spec["rich"]): two top-level fields whose
+    sub-fields repeat the argument name `first` at three depths -
+        items(first: a) { id related(first: b) { id related(first: c) { name } } }   item(id: ..) { related(first: d) { id } }"""
+    pkg = type(client).__module__.rsplit(".", 1)[0]
+    cq = importlib.import_module(pkg + ".custom_queries")
+    if not rec.spec.get("rich"):
+        return [cq.Query.ping()]
+    cf = importlib.import_module(pkg + ".custom_fields")
+    F = cf.ItemFields
+    a, b, c, d = custom_numbers(rec)
+    return [cq.Query.items(first=a).fields(F.id, F.related(first=b).fields(F.id, F.related(first=c).fields(F.name))),
+            cq.Query.item(id="i-%s" % rec.nonce).fields(F.related(first=d, tag="t").fields(F.id))]
+
+
 def _traced_files(pkgname):
     if pkgname not in _TRACED:
         import os
         root = os.path.join(fixture.root(), pkgname)
         _TRACED[pkgname] = [os.path.join(root, f) for f in os.listdir(root)
                             if f in ("base_client.py", "base_client_open_telemetry.py", "client.py", "base_model.py",
-                                     "exceptions.py")]
+                                     "exceptions.py", "base_operation.py", "custom_fields.py", "custom_queries.py")]
     return _TRACED[pkgname]
